@@ -6,6 +6,7 @@ pub mod ast;
 pub mod coerce;
 pub mod exec;
 pub mod lex;
+pub mod measures;
 pub mod parse;
 pub mod print;
 pub mod schema;
